@@ -17,7 +17,7 @@ func (rt *runtime) cmplEvaluateNodeExpression(node nodeExpression) Value {
 		goruntime.Gosched()
 		select {
 		case value := <-rt.otto.Interrupt:
-			value()
+			rt.interrupt(value)
 		default:
 		}
 	}
